@@ -19,6 +19,9 @@ from .bootstrap import VERIF
 from .rng import verif_seed
 
 EXIT_OK, EXIT_VIOLATION, EXIT_HARNESS = 0, 1, 2
+# scratch runs (sensitivity self-tests, seeded mutants) must not overwrite committed evidence
+EVIDENCE_DIR = os.environ.get("VERIF_EVIDENCE_DIR", os.path.join(VERIF, "evidence"))
+REPLAY_DIR = os.environ.get("VERIF_REPLAY_DIR", os.path.join(VERIF, "replays"))
 _PROP = None
 
 
@@ -256,7 +259,7 @@ def main(prop, argv=None):
     reported = []
     known_hits = {}
     exit_code = EXIT_OK
-    os.makedirs(os.path.join(VERIF, "replays"), exist_ok=True)
+    os.makedirs(REPLAY_DIR, exist_ok=True)
     shrink_budget = 45.0 if tier == "quick" else 120.0
     max_classes = 12
     for ci, (ck, items) in enumerate(sorted(classes.items())):
@@ -268,7 +271,7 @@ def main(prop, argv=None):
         r = prop.execute(small)
         sig = prop.signature(small, r.get("violation") or sv)
         h = hashlib.sha256(json.dumps(small, sort_keys=True).encode()).hexdigest()[:10]
-        path = os.path.join(VERIF, "replays", f"{prop.ID}-{seed}-{h}.json")
+        path = os.path.join(REPLAY_DIR, f"{prop.ID}-{seed}-{h}.json")
         rec = {"property": prop.ID, "verif_seed": seed, "tier": tier, "scenario": small,
                "violation": r.get("violation") or sv, "digest": r.get("digest"),
                "signature": sig, "class_count": len(items)}
@@ -337,6 +340,6 @@ def write_evidence(prop, tier, seed, agg, njobs, nviol, wall, known_ids, det=Non
         "coverage": cov, "assumptions": prop.ASSUMPTIONS, "wall_s": round(wall, 2),
         "violations": nviol,
     }
-    os.makedirs(os.path.join(VERIF, "evidence"), exist_ok=True)
-    with open(os.path.join(VERIF, "evidence", f"{prop.ID}.json"), "w") as fh:
+    os.makedirs(EVIDENCE_DIR, exist_ok=True)
+    with open(os.path.join(EVIDENCE_DIR, f"{prop.ID}.json"), "w") as fh:
         json.dump(ev, fh, indent=1, sort_keys=True, default=lambda o: sorted(o) if isinstance(o, (set, frozenset)) else str(o))
